@@ -1,19 +1,23 @@
 #!/bin/sh
-# Re-run every archived seeded change against its property's check: apply to /repo, run, restore.  Usage: harness/seed_regression.sh [tier]
-# Writes seeded/REGRESSION.txt (one line per seeded change).  /repo must be clean when this starts.
+# Re-run every archived seeded change against its property's check, on a scratch worktree of /repo (HPL_REPO), never on
+# /repo itself.  Usage: harness/seed_regression.sh [tier]   -> seeded/REGRESSION.txt (one line per seeded change)
 cd "$(dirname "$0")/.." || exit 2
 tier=${1:-quick}
-if [ -n "$(git -C /repo status --short -- src)" ]; then echo "/repo has local changes" >&2; exit 2; fi
+wt=$(mktemp -d /tmp/seedreg.XXXXXX)
+git -C /repo worktree add --detach "$wt" HEAD -q || exit 2
 out=seeded/REGRESSION.txt
 : > $out
 for d in seeded/C*/; do
   name=$(basename $d); prop=${name%%-*}
-  if git -C /repo apply "$(pwd)/$d/patch.diff" 2>/dev/null; then
-    res=$(./check $prop --tier $tier 2>&1 | grep -E "VIOLATION|done rc=" | tr '\n' ' ')
-    git -C /repo checkout -- . ; rm -rf /repo/.hypothesis
+  if git -C "$wt" apply "$(pwd)/$d/patch.diff" 2>/dev/null; then
+    res=$(HPL_REPO="$wt" ./check $prop --tier $tier 2>&1 | grep -E "VIOLATION|done rc=" | tr '\n' ' ')
+    git -C "$wt" checkout -- . ; rm -rf "$wt/.hypothesis"
     case "$res" in *"rc=1"*) verdict=CAUGHT;; *"rc=0"*) verdict=MISSED;; *) verdict=ERROR;; esac
   else
     verdict=PATCH-DOES-NOT-APPLY; res=""
   fi
   echo "$verdict $name :: $res" | tee -a $out
 done
+git -C /repo worktree remove --force "$wt"
+# leave the generated tables as the real tree has them
+/venv/bin/python harness/extract_tables.py lean/Hpl/Generated/Tables.lean >/dev/null
